@@ -115,6 +115,28 @@ def cli_case(ctx, rows, batch_size, tmp):
             return
 
 
+def dataset_case(ctx, rows, batch_size, tmp):
+    """CSV / JSON files as Dataset sources of Balancer.rebalance"""
+    from synrbl import Balancer
+    from synrbl.SynUtils.batching import Dataset
+
+    srows = [x if isinstance(x, str) else "" for x in rows]
+    cpath, jpath = os.path.join(tmp, "ds.csv"), os.path.join(tmp, "ds.json")
+    with open(cpath, "w", newline="") as f:
+        w = csv.writer(f)
+        w.writerow(["reaction", "tag"])
+        for i, x in enumerate(srows):
+            w.writerow([x, "t%d" % i])
+    with open(jpath, "w") as f:
+        json.dump([{"reaction": x, "tag": "t%d" % i} for i, x in enumerate(srows)], f)
+    for form, path in (("csv-dataset", cpath), ("json-dataset", jpath)):
+        try:
+            out, err = Balancer(n_jobs=1, batch_size=batch_size).rebalance(Dataset(path), output_dict=True), None
+        except Exception as e:
+            out, err = None, "%s: %s" % (type(e).__name__, e)
+        statement(ctx, srows, out, err, form)
+
+
 def sequences(ctx, maxlen, per_len):
     rng = ctx.rng
     strs = [m for m in MALFORMED if isinstance(m, str)]
@@ -184,6 +206,8 @@ def run(ctx):
         ctx.traces += len(ops)
         tmp = tempfile.mkdtemp(prefix="synrbl_c05_")
         try:
+            dataset_case(ctx, ["C>>C", "xx>>C", "CC>>CC", "", "CCO>>CC=O"], 2, tmp)
+            dataset_case(ctx, ["CC(C)(C)(C)(C)C>>CCO", "C>>C", "A>B>C"], None, tmp)
             cli_case(ctx, ["C>>C", "xx>>C", "CC>>CC", "CCO>>CC=O"], None, tmp)
             cli_case(ctx, ["C>>C", "CC>>CC", "", "CCO>>CC=O", "A>B>C"], 2, tmp)
             if not quick:
